@@ -998,9 +998,10 @@ GM_Check(q, devs) ==
 GM_Rewrite(q, devs) == Res(Map2(MatMul(GM_A(q), GM_B(q)), GM_C(q), "f32", LAMBDA u, v : u + v), TRUE)
 GM_Unknown(q) == FALSE
 
-(* optional_bias: _remove_optional_bias.py  Gemm / Conv / ConvTranspose (kernel size 1, so the convolution is a  *)
-(* per-position channel mix) with a constant all-zero bias                                                      *)
-OB_Params(z) == {[op |-> op, bias |-> bi, bkind |-> k, tb |-> tb] : op \in {"Gemm", "Conv", "ConvTranspose"}, bi \in {"zero", "nonzero"},
+(* optional_bias: _remove_optional_bias.py  Gemm / Conv / ConvTranspose / QLinearConv (kernel size 1, so the     *)
+(* convolution is a per-position channel mix) with a constant all-zero bias.  QLinearConv (session 6): uint8 x   *)
+(* and w, scales 1.0, int32 bias; tb = TRUE gives it the zero points x_zp = 1, y_zp = 2 (else 0).                *)
+OB_Params(z) == {[op |-> op, bias |-> bi, bkind |-> k, tb |-> tb] : op \in {"Gemm", "Conv", "ConvTranspose", "QLinearConv"}, bi \in {"zero", "nonzero"},
                     k \in Kinds, tb \in BOOLEAN}
 OB_X(q) == IF q.op = "Gemm" THEN T("f32", <<2, 2>>, <<1, 2, 3, 4>>) ELSE T("f32", <<1, 2, 3>>, <<1, 2, 3, 4, 5, 6>>)
 OB_W(q) == IF q.op = "Gemm" THEN T("f32", <<2, 2>>, <<1, -1, 2, 3>>) ELSE T("f32", <<2, 2, 1>>, <<1, -1, 2, 3>>)
@@ -1010,7 +1011,15 @@ OB_Conv(q, b) == LET x == OB_X(q) w == OB_W(q)
                      Wt(m, c) == IF q.op = "Conv" THEN At(w, <<m, c, 0>>) ELSE At(w, <<c, m, 0>>)
                      Op(idx) == SeqSum([c \in 1..2 |-> At(x, <<0, c - 1, idx[3]>>) * Wt(idx[2], c - 1)]) + (IF b = NoT THEN 0 ELSE b.data[idx[2] + 1])
                  IN FromFn("f32", <<1, 2, 3>>, Op)
-OB_Eval(q, b) == IF q.op = "Gemm" THEN Gemm(OB_X(q), OB_W(q), b, FALSE, q.tb, 1, 1) ELSE OB_Conv(q, b)
+\* y = saturate(sum_c (x[0, c, l] - x_zp) * (w[m, c, 0] - 0) + b[m] + y_zp) at scales 1.0
+OB_QConv(q, b) == LET xzp == IF q.tb THEN 1 ELSE 0
+                      yzp == IF q.tb THEN 2 ELSE 0
+                      x == T("u8", <<1, 2, 3>>, <<1, 2, 3, 4, 5, 6>>)
+                      w == T("u8", <<2, 2, 1>>, <<1, 0, 2, 3>>)
+                      Op(idx) == Clamp(SeqSum([c \in 1..2 |-> (At(x, <<0, c - 1, idx[3]>>) - xzp) * At(w, <<idx[2], c - 1, 0>>)])
+                                       + (IF b = NoT THEN 0 ELSE b.data[idx[2] + 1]) + yzp, 0, 255)
+                  IN FromFn("u8", <<1, 2, 3>>, Op)
+OB_Eval(q, b) == IF q.op = "QLinearConv" THEN OB_QConv(q, b) ELSE IF q.op = "Gemm" THEN Gemm(OB_X(q), OB_W(q), b, FALSE, q.tb, 1, 1) ELSE OB_Conv(q, b)
 OB_Lhs(q) == OB_Eval(q, OB_Bias(q))
 OB_Check(q, devs) == IF ~HasConstValue(q.bkind, devs) THEN "fail" ELSE IF q.bias # "zero" THEN "fail" ELSE "ok"
 OB_Rewrite(q, devs) == Res(OB_Eval(q, NoT), TRUE)
